@@ -407,12 +407,15 @@ def check_property(pid, tier, seed, replay_only=None):
                 continue
             st_ms += sr.res.smt_ms
             for k, v in sr.res.functions.items():
-                if v['success'] is False and k.split('::')[-1] not in set(f['function'].split('::')[-1] for f in failures):
+                if v['success'] is False and k.split('::')[-1] not in (set(f['function'].split('::')[-1] for f in failures) |
+                                                                        (set(['call']) if any('{closure}' in f['function'] for f in failures) else set())):
                     fragile.append('%s::%s' % (u, k.split('::', 1)[-1]))
         # ... and with two other solver seeds at the full budget (proofs that lean on nonlinear arithmetic or on a lucky
         # quantifier instantiation order show up here)
         seed_fragile = []
         failing_now = set(f['function'].split('::')[-1] for f in failures)
+        if any('{closure}' in f['function'] for f in failures):
+            failing_now.add('call')       # a closure under contract is emitted as the `call` method of its sink object (R10)
         for sd in (3, 11):
             with concurrent.futures.ThreadPoolExecutor(max_workers=8) as ex:
                 sres = dict(zip(units, ex.map(lambda u: run_unit(u, specs, outdir + '_seed%d' % sd, False, rl, 4, sd), units)))
